@@ -46,7 +46,7 @@ def tasks(tier, seed):
                                 if "silent" in seq and not ping:
                                     continue
                                 ts.append({"kind": "seq", "seq": list(seq), "term": term, "disp": disp, "onrec": onrec, "interval": interval, "ping": ping,
-                                           "bound": (1 if tier == "quick" else 2) if (ping and disp == "builtin") else 0,
+                                           "bound": (2 if tier == "quick" else 4) if (ping and disp == "builtin") else 0,
                                            "name": "%s|%s/%s/rec=%s/i=%d/ping=%s" % (",".join(seq) or "-", term, disp, onrec, interval, ping)})
     # close() from a second thread: at every scheduling point of the loop thread (preemption) and at every phase of the
     # reconnect cycle in virtual time (connection open, during the reconnect sleep, during a failing attempt, after re-establishment)
@@ -54,7 +54,7 @@ def tasks(tier, seed):
         for ping in (False, True):
             for delay in [x * 0.5 for x in range(0, 21)]:
                 ts.append({"kind": "closer", "seq": ["eof", "refused"], "term": "stays-up", "disp": disp, "onrec": True, "interval": 3, "ping": ping, "delay": delay,
-                           "bound": 1 if tier == "quick" else 2, "name": "closer/%s/ping=%s/delay=%.1f" % (disp, ping, delay)})
+                           "bound": 2 if tier == "quick" else 4, "name": "closer/%s/ping=%s/delay=%.1f" % (disp, ping, delay)})
     return ts
 
 
